@@ -204,9 +204,11 @@ def inlineKeyvals : Nat → Nat → Bytes → List (List Bytes × Bytes × Val) 
     | .cut => .cut
     | .bt => .ok acc s
     | .ok ks r =>
+      -- check_recursion_nested(path.len() - 1, …): the dotted key's tables count against the limit
+      if LIMIT ≤ d + (ks.length - 1) then .cut else
       match r with
       | 0x3D :: r1 =>
-        match value fuel d (dropWs r1) with
+        match value fuel (d + (ks.length - 1)) (dropWs r1) with
         | .ok v r2 =>
           let r3 := dropWs r2
           match splitLast ks with
